@@ -1,5 +1,15 @@
 #!/bin/sh
-# Build the Lean project (all property modules + drivers) from files on disk only.
+# Build the Lean project (every property module + every driver whose source exists) from files on disk only.
 set -e
 cd "$(dirname "$0")/lean"
-lake build NunavutVerif $(sed -n 's/^name = "\([a-z0-9_]*\)"$/\1/p' lakefile.toml | grep -v NunavutVerif) 2>&1 | tail -5
+mods=$(ls NunavutVerif/Properties/*.lean | sed 's#/#.#g; s#\.lean$##')
+exes=""
+for e in $(awk '/^name = /{n=$3} /^root = /{gsub(/"/,"",n); r=$3; gsub(/"/,"",r); gsub(/\./,"/",r); print n":"r}' lakefile.toml); do
+  n=${e%%:*}; f=${e#*:}.lean
+  [ -f "$f" ] && exes="$exes $n"
+done
+echo "building: $mods $exes"
+rc=0
+flock .lock lake build $mods $exes > .setup.log 2>&1 || rc=$?
+grep -v "^⚠\|warning\|linter\|Hint\|\[apply\]\|^Note\|^$" .setup.log | tail -15
+exit $rc
